@@ -41,6 +41,22 @@ Theorem C07_keeps_subject : forall (H : string -> string) (cf : cfg) pl r s cr r
 Proof. exact keeps_subject. Qed.
 Print Assumptions C07_keeps_subject.
 
+(* REGISTERED GRANT LISTS.  A refresh needs the refresh_token grant in the registration NOW:
+   whether it was never there (c_refresh = false), withdrawn (DropRefresh) or the registration was
+   left with no grant type at all (DropGrants: an empty list is no grant, not a default), a client
+   holding a refresh token gets nothing for it - on either router. *)
+Theorem C07_withdrawn_refused : forall (H : string -> string) (cf : cfg) r s pl cr n sc t,
+  find_rt s n = Some t -> In (r_client t) (norefresh s) ->
+  is_tokens (snd (step H cf r s (TokenRefresh pl cr (Some n) sc))) = false.
+Proof. exact withdrawn_refused. Qed.
+Print Assumptions C07_withdrawn_refused.
+
+Theorem C07_drop_grants_step : forall (H : string -> string) (cf : cfg) r s cl,
+  exists s', step H cf r s (DropGrants cl) = (s', ODone) /\ In cl (norefresh s')
+    /\ rtoks s' = rtoks s /\ forall c, c_id c = cl -> has_code s' c = false /\ has_refresh s' c = false.
+Proof. exact drop_grants_step. Qed.
+Print Assumptions C07_drop_grants_step.
+
 (* the refreshed tokens keep the audience of the grant (r_aud; the storage's policy f_aud cf: the
    client alone, a resource server only, several entries ...): a JWT access token carries it
    EXACTLY - the client stands in only for a grant without audience -, the ID token carries it
